@@ -59,3 +59,26 @@ Theorem C06_simple_emphasis_hypotheses :
    emph_word ($" x") = false /\ emph_word ($"x.") = false /\ emph_word ($"a*b") = false).
 Proof. split; [exact emph_configs|exact emph_words]. Qed.
 Print Assumptions C06_simple_emphasis_hypotheses.
+
+(* The same pair of runs inside a sentence: text before and after it, any length.  The text before ends with
+   (and the text after starts with) whitespace or punctuation, or is empty, so the flanking of the two runs is
+   the same for `*` and `_`; neither contains a trigger character (Proofs/EmphSentence.v). *)
+From Mistletoe Require Import Proofs.PlainProse Proofs.EmphSentence.
+Theorem C06_emphasis_in_sentence : forall types fn o ch (double : bool) pre w post,
+  (ch = 42 \/ ch = 95)%Z -> emph_word w = true -> plain_text pre = true -> plain_text post = true ->
+  edge_pre pre = true -> edge_post post = true -> emph_spans types = true ->
+  let run := if double then [ch; ch] else [ch] in
+  let tag := if double then $"strong" else $"em" in
+  let s := pre ++ run ++ w ++ run ++ post in
+  tokenize_inner types fn s = raw_if pre ++ [if double then Strong [ch] [RawText w] else Emphasis [ch] [RawText w]] ++ raw_if post /\
+  serialize (flat_map (render o false false) (tokenize_inner types fn s)) =
+    escape_html_text o pre ++ $"<" ++ tag ++ $">" ++ escape_html_text o w ++ $"</" ++ tag ++ $">" ++ escape_html_text o post.
+Proof. exact emphasis_in_sentence. Qed.
+Print Assumptions C06_emphasis_in_sentence.
+
+Theorem C06_emphasis_in_sentence_hypotheses :
+  let pre := $"this is " in let post := $", and (more) follows" in
+  plain_text pre = true /\ plain_text post = true /\ edge_pre pre = true /\ edge_post post = true /\ emph_word ($"really so") = true /\
+  edge_post ($"x") = false /\ edge_pre ($"x") = false.
+Proof. exact sentence_instance. Qed.
+Print Assumptions C06_emphasis_in_sentence_hypotheses.
